@@ -278,11 +278,37 @@ def normalize_index_cases(run, rng, nmax, nrandom):
             return False
         return True
 
+    coq = []
+
+    def code(ix):
+        if isinstance(ix, slice):
+            return [1, -1 if ix.start is None else int(ix.start), -1 if ix.stop is None else int(ix.stop)] if ix.step in (None, 1) else [9]
+        if isinstance(ix, (int, np.integer)):
+            return [0, int(ix)]
+        return [2] + [int(x) for x in np.asarray(ix).reshape(-1)]
+
     for n in range(1, nmax + 1):
         for mask in range(1, 2 ** n):
             flat = [i for i in range(n) if mask >> i & 1]
             if not check(flat, (n,), rng.choice([1, 2])):
                 return
+            if mask % 3 == 0 or n <= 6:
+                # the same request, unsorted and with repetitions, against the Coq model of the per-axis step
+                req = flat + [rng.choice(flat) for _ in range(rng.randint(0, 2))]
+                rng.shuffle(req)
+                try:
+                    ix = fc._normalize_indexes(1, req, (n,))[-1]
+                    coq.append(f"({C.list_lit([C.zlit(x) for x in req])}, {n}, {C.list_lit([C.zlit(x) for x in code(ix)])})")
+                except Exception:  # noqa: BLE001
+                    coq.append(f"({C.list_lit([C.zlit(x) for x in req])}, {n}, [9])")
+    hdr = "From Coq Require Import ZArith List Bool.\nFrom Flox Require Import Cases.\nImport ListNotations.\nOpen Scope Z_scope.\n"
+    text = hdr + "Definition cases := [\n " + ";\n ".join(coq) + "\n].\nEval vm_compute in (failing normidx_case_ok cases).\n"
+    ok, o = C.coq_eval_many({"normidx": text}, "C09")["normidx"]
+    lists = C.parse_nat_list(o)
+    good = ok and len(lists) == 1 and not lists[0]
+    run.extra["normalize_indexes_model_cases_in_coq"] = len(coq)
+    run.oblige("correspondence:K2 NormIdx.normalize_axis == flox.core._normalize_indexes (1-D, unsorted / repeated requests)", good,
+               "" if good else (f"model differs on {[coq[j] for j in lists[0][:3]]}" if ok and len(lists) == 1 else o[-400:])[:1200])
     for _ in range(nrandom):
         shape = tuple(rng.randint(1, 5) for _ in range(rng.choice([2, 2, 3])))
         total = int(np.prod(shape))
